@@ -80,7 +80,13 @@ def strategy_(draw, tier):
             kw[pn] = pick(True)
       elif fn == 'things:ident' and draw(st.booleans()):
         kw['x'] = pick(True)
-      node = {'k': 'B', 'bt': 'ArgFactory', 'fn': {'kind': 'sym', 'name': fn}, 'pos': [],
+      afpos = []
+      if draw(st.sampled_from(range(5))) == 0:
+        # a factory whose bound arguments are all passed positionally (positional-only / *args)
+        fn = draw(st.sampled_from(['things:po2', 'things:g3']))
+        kw = {}
+        afpos = [pick(True) for _ in range(draw(st.integers(1, 2)) if fn == 'things:po2' else 3)]
+      node = {'k': 'B', 'bt': 'ArgFactory', 'fn': {'kind': 'sym', 'name': fn}, 'pos': afpos,
               'kw': kw, 'edits': []}
       t = True
     elif kind in ('list', 'tuple'):
